@@ -60,10 +60,10 @@ Print Assumptions C17_untouched_general.
    subtree is bounded by [lo, hi] (positions of its nodes and tokens and of the comments attached
    to nested nodes) and the region the walk starts with is. *)
 Theorem C17_spans_stay_within_the_walked_subtree : forall lo hi, nopos <= lo -> lo <= hi ->
-  forall script k r from to w,
-  bounded_root lo hi from -> Inv lo hi r -> walk script k r from to = Some w ->
+  forall script k nend r from to w,
+  bounded_root lo hi from -> Inv lo hi r -> walk script k nend r from to = Some w ->
   Forall (Good lo hi) (w_log w).
-Proof. intros lo hi H1 H2 script k r from to w. exact (walk_bounded_root lo hi H1 H2 script k r from to w). Qed.
+Proof. intros lo hi H1 H2 script k nend r from to w. exact (walk_bounded_root lo hi H1 H2 script k nend r from to w). Qed.
 Print Assumptions C17_spans_stay_within_the_walked_subtree.
 
 (* A list of nodes in source order (the declarations of a file, the statements of a block) is
@@ -73,8 +73,8 @@ Print Assumptions C17_spans_stay_within_the_walked_subtree.
    it), unless the span starts at NoPos.  The side conditions are boolean and evaluated on every
    snapshot of a check run. *)
 Theorem C17_identical_declaration_is_clear_of_every_span :
-  forall script k r t xs t' en ys w j xj c,
-  walk script (S k) r (VSlice t true xs) (VSlice t' en ys) = Some w ->
+  forall script k nend r t xs t' en ys w j xj c,
+  walk script (S k) nend r (VSlice t true xs) (VSlice t' en ys) = Some w ->
   N.eqb t t' = true -> N.eqb t T_object = false -> N.eqb t T_cgroup = false ->
   list_okb r xs (xedits (script xs ys)) = true ->
   nth_error xs j = Some xj -> nth_error (xedits (script xs ys)) j = Some Identity ->
@@ -122,7 +122,7 @@ Example C17_identical_ex :
   let xs := [mk 20 30 [[(10, 19)]] 1%N; mk 40 50 [] 2%N; mk 60 70 [[(71, 80)]] 3%N] in
   let ys := [mk 20 30 [] 1%N; mk 40 50 [] 9%N; mk 60 70 [] 3%N] in
   let r := (5, 90) in
-  match walk the_script 5 r (VSlice 18 true xs) (VSlice 18 true ys) with
+  match walk the_script 5 nopos r (VSlice 18 true xs) (VSlice 18 true ys) with
   | Some w => w_log w = [(30, 60)]
               /\ xedits (the_script xs ys) = [Identity; Modified; Identity]
               /\ list_okb r xs (xedits (the_script xs ys)) = true
